@@ -61,6 +61,19 @@ theorem laminar_drop (evs out : List Ev) (h : pipeline .drop evs = .ok out) : La
     injection h with h; subst h
     exact laminar_stage _ _ _ _ _ _ hd
 
+/-- **Clause 1 (-O drop), second half.** -O drop only removes events: the output is a sub-list
+(same order, every survivor unchanged in all fields) of the sorted input, which is a permutation
+of the input. -/
+theorem drop_sublist (evs out : List Ev) (h : pipeline .drop evs = .ok out) :
+    out.Sublist (sortStage evs) ∧ (sortStage evs).Perm evs := by
+  unfold pipeline at h
+  simp only [] at h
+  split at h
+  · cases h
+  · rename_i st' out' hd
+    injection h with h; subst h
+    exact ⟨detectAll_drop_sublist _ _ _ _ _ _ hd, sortStage_perm evs⟩
+
 /-- **Clause 2 (-O tid changes only the tid, never drops).** Stage level: the emitted stream is
 the input stream elementwise — same length, same order, every field except `tid` equal. -/
 theorem only_tid_changes_stage (next : Nat → Nat → Option Nat) (fuel : Nat)
